@@ -37,7 +37,8 @@ type c03Stage struct {
 	K string `json:"k"`           // out tout err cast mtac msort null prefix suffix each match
 	W string `json:"w,omitempty"` // word / payload / pattern
 	V string `json:"v,omitempty"` // second word (each: text after the variable, starts with ">")
-	X string `json:"x,omitempty"` // each: name of the iteration variable
+	X string `json:"x,omitempty"` // each: name of the iteration variable; fdef/fcall: function name
+	N int    `json:"n,omitempty"` // fdef/fcall: number of stderr lines the slow function writes
 }
 
 type c03Pipe struct {
@@ -86,6 +87,10 @@ func c03StageSrc(s c03Stage) string {
 		return s.K
 	case "prefix", "suffix", "match":
 		return s.K + " " + s.W
+	case "fdef": // definition of a SLOW stderr writer: N forks, N stderr lines W1..WN
+		return fmt.Sprintf("function %s { a [1..%d] -> foreach i { err \"%s$i\" } }", s.X, s.N, s.W)
+	case "fcall":
+		return s.X
 	case "each":
 		return "foreach " + s.X + " { out \"" + s.W + "$" + s.X + s.V + "\" }" // V always starts with ">"
 	}
@@ -113,6 +118,14 @@ func c03StageCoq(s c03Stage) string {
 		return coqlit.App("SLines", coqlit.App("LWrap", coqlit.Bytes(s.W), "[]"))
 	case "suffix":
 		return coqlit.App("SLines", coqlit.App("LWrap", "[]", coqlit.Bytes(s.W)))
+	case "fdef":
+		return "(SOut [])" // defines the function: writes nothing, exit 0
+	case "fcall":
+		var b strings.Builder
+		for i := 1; i <= s.N; i++ {
+			fmt.Fprintf(&b, "%s%d\n", s.W, i)
+		}
+		return coqlit.App("SErr", coqlit.Bytes(b.String())) // never the last stage: its exit number is not observed
 	case "each":
 		return coqlit.App("SLines", coqlit.App("LEach", coqlit.Bytes(s.X), coqlit.Bytes(s.W), coqlit.Bytes(s.V)))
 	case "match":
@@ -330,6 +343,27 @@ func (c03) Gen(seed int64, tier string, emit func(any)) {
 	for i, p := range fixed {
 		emit(mk("fixed", p, int64(i)))
 	}
+	// `A | B ; END`: A writes stderr (one line, or a slow function of N forks and N lines), B does
+	// not read its stdin and finishes first. Only executeProcess's wait for its predecessor keeps
+	// END (same stream, next pipeline) behind A's output: C03_program_sequential says END is last.
+	tail := 0
+	for _, conn := range []string{"Seq", "AndThen"} {
+		for _, end := range []c03Stage{{K: "err", W: "END"}, {K: "out", W: "END"}} {
+			for _, b := range []c03Stage{{K: "out", W: "b"}, {K: "tout", W: "b"}} {
+				emit(mk("tail", []c03Pipe{{"Seq", []c03Stage{{K: "err", W: "a"}, b}}, {conn, []c03Stage{end}}}, int64(100+tail)))
+				for _, n := range []int{12, 60} {
+					name := fmt.Sprintf("c03slow%d", n)
+					emit(mk("tail-slow", []c03Pipe{
+						{"Seq", []c03Stage{{K: "fdef", X: name, W: "s", N: n}}},
+						{"Seq", []c03Stage{{K: "fcall", X: name, W: "s", N: n}, b}},
+						{conn, []c03Stage{end}}}, int64(200+tail)))
+				}
+				tail++
+			}
+		}
+	}
+	emit(mk("tail", []c03Pipe{{"Seq", []c03Stage{{K: "err", W: "a"}, {K: "out", W: "b"}, {K: "out", W: "c"}}}, {"Seq", []c03Stage{{K: "err", W: "END"}}}}, 150))
+	emit(mk("tail", []c03Pipe{{"Seq", []c03Stage{{K: "out", W: "x"}, {K: "err", W: "a"}, {K: "tout", W: "b"}}}, {"Seq", []c03Stage{{K: "err", W: "END"}}}, {"Seq", []c03Stage{{K: "out", W: "z"}}}}, 151))
 	r := rand.New(rand.NewSource(seed))
 	for i := 0; i < nModel; i++ {
 		var p []c03Pipe
@@ -365,15 +399,30 @@ var c03Yields atomic.Int64
 
 // c03Perturb installs a yield callback whose decisions are a function of
 // (seed, number of the call): Gosched, a short sleep, or nothing.
-func c03Perturb(seed int64, intensity int) func() {
-	var n atomic.Uint64
+func c03Perturb(seed int64, intensity int, victim int) func() {
+	var n, starts atomic.Uint64
 	fn := func(site string) {
 		k := n.Add(1)
+		if site == "proc.start" {
+			// one process per run (the victim-th to start) is held back for 15-40 ms, far longer
+			// than any grace period: a stage that should be waited for is still running long after
+			// its successors have finished
+			if s := starts.Add(1); victim >= 0 && int(s-1) == victim {
+				c03Yields.Add(1)
+				time.Sleep(time.Duration(15+(uint64(seed)>>7)%26) * time.Millisecond)
+				return
+			}
+		}
 		h := uint64(seed)*0x9E3779B97F4A7C15 + k*0xBF58476D1CE4E5B9
 		h ^= h >> 31
 		h *= 0x94D049BB133111EB
 		h ^= h >> 29
 		c03Yields.Add(1)
+		if (site == "proc.start" || site == "sched.spawn") && (h>>40)%6 == 0 {
+			// 1 in 6: a LONG delay of 2-15 ms at process spawn / start
+			time.Sleep(time.Duration(2000+(h>>12)%13000) * time.Microsecond)
+			return
+		}
 		switch h % 8 {
 		case 0, 1:
 			runtime.Gosched()
@@ -391,6 +440,13 @@ func c03Perturb(seed int64, intensity int) func() {
 		lang.VerifSetYield(nil)
 		c03InstallStreamYield(nil)
 	}
+}
+
+func c03Max(a, b int) int {
+	if a > b {
+		return a
+	}
+	return b
 }
 
 func c03Noise(stop chan struct{}, k int) *sync.WaitGroup {
@@ -424,13 +480,26 @@ func c03RunAll(c c03Case) c03Obs {
 	old := runtime.GOMAXPROCS(0)
 	defer runtime.GOMAXPROCS(old)
 	y0 := c03Yields.Load()
+	nproc := 0
+	for _, pl := range c.Prog {
+		nproc += len(pl.Stages)
+	}
+	if nproc == 0 {
+		nproc = 4 + strings.Count(c.Src, "|") + strings.Count(c.Src, ";")
+	}
 	for i := 0; i < c.Runs; i++ {
 		runtime.GOMAXPROCS(procs[r.Intn(len(procs))])
 		stop := make(chan struct{})
 		wg := c03Noise(stop, r.Intn(4))
 		var undo func()
 		if i > 0 { // run 0 is unperturbed
-			undo = c03Perturb(r.Int63(), 1+r.Intn(2))
+			// victim: which process start (in start order) is held back; cycles through the
+			// program's processes so every stage is the slow one in some run
+			victim := -1
+			if i%3 != 0 {
+				victim = (i + r.Intn(2)) % c03Max(nproc, 2)
+			}
+			undo = c03Perturb(r.Int63(), 1+r.Intn(2), victim)
 		}
 		res := RunMurex(c.Src, 15*time.Second)
 		if undo != nil {
